@@ -792,6 +792,60 @@ pub fn ill_sorted_variant(f: &BtorFile, t: &mut Tape) -> Option<(BtorFile, Strin
             }
         }
     }
+    // ill-sorted init / next lines: the expression swapped for a node of a sort the state cannot take
+    // (for the bit-vector init of an array state: a bit-vector that is not as wide as the elements),
+    // or another declared sort on the line itself
+    let links: Vec<usize> = (0..f.lines.len())
+        .filter(|i| matches!(&f.lines[*i].kind, LineKind::Init { .. } | LineKind::Next { .. }))
+        .collect();
+    if !links.is_empty() && t.chance(64) {
+        for _ in 0..4 {
+            let i = links[t.below(links.len() as u32) as usize];
+            let mut g = f.clone();
+            let what;
+            if t.chance(64) {
+                let cur = g.lines[i].sort_line.map(|s| g.lines[s].sort);
+                let cands: Vec<usize> = (0..i)
+                    .filter(|j| matches!(g.lines[*j].kind, LineKind::Sort(_)) && Some(g.lines[*j].sort) != cur)
+                    .collect();
+                if cands.is_empty() {
+                    continue;
+                }
+                g.lines[i].sort_line = Some(cands[t.below(cands.len() as u32) as usize]);
+                what = format!("line {}: declared sort of an init/next line changed", g.lines[i].id);
+            } else {
+                let (state, is_init) = match &g.lines[i].kind {
+                    LineKind::Init { state, .. } => (*state, true),
+                    LineKind::Next { state, .. } => (*state, false),
+                    _ => continue,
+                };
+                let st = g.lines[state].sort;
+                // prefer, for an array state, bit-vector nodes of the wrong element width
+                let mut cands: Vec<usize> = (0..i)
+                    .filter(|j| {
+                        g.is_node(*j)
+                            && is_init
+                            && matches!((st, g.lines[*j].sort), (Some(BSort::Arr(_, dw)), Some(BSort::Bv(w))) if dw != w)
+                    })
+                    .collect();
+                if cands.is_empty() || t.chance(80) {
+                    cands = (0..i).filter(|j| g.is_node(*j) && g.lines[*j].sort != st).collect();
+                }
+                if cands.is_empty() {
+                    continue;
+                }
+                let j = cands[t.below(cands.len() as u32) as usize];
+                match &mut g.lines[i].kind {
+                    LineKind::Init { expr, .. } | LineKind::Next { expr, .. } => *expr = (j, false),
+                    _ => {}
+                }
+                what = format!("line {}: init/next expression swapped for a node of another sort", g.lines[i].id);
+            }
+            if type_check_file(&g).is_err() {
+                return Some((g, what));
+            }
+        }
+    }
     for _ in 0..6 {
         let i = ops[t.below(ops.len() as u32) as usize];
         let mut g = f.clone();
